@@ -311,8 +311,16 @@ def _check(case, ctx):
             _cmp("distance_bin", D, Dref, case, fails, "distance")
             if n >= 2:
                 Dm = np.asarray(D, dtype=float)
-                _run(ctx, fails, case, bct.charpath, Dm, include_infinite=False)     # history: an earlier call with other flags
-                cp = _run(ctx, fails, case, bct.charpath, Dm)                          # ... must not change what this call reports
+                # the documented flags: means over the finite off-diagonal distances only / with the zero diagonal included
+                cf = _run(ctx, fails, case, bct.charpath, Dm, include_infinite=False)     # (also a history: an earlier call with other flags
+                fin = Dref[off & np.isfinite(Dref)]
+                if cf is not None and fin.size:
+                    _scalar("charpath(include_infinite=False)", cf[0], float(np.mean(fin)), case, fails, "lambda")
+                    _scalar("charpath(include_infinite=False)", cf[1], float(np.mean(1.0 / fin)), case, fails, "efficiency")
+                cd = _run(ctx, fails, case, bct.charpath, Dm, include_diagonal=True)
+                if cd is not None and not np.any(np.isinf(Dref)):
+                    _scalar("charpath(include_diagonal=True)", cd[0], float(np.mean(Dref)), case, fails, "lambda")
+                cp = _run(ctx, fails, case, bct.charpath, Dm)                          # ... must not change what this call reports)
                 if cp is not None:
                     _scalar("charpath", cp[0], lam_ref, case, fails, "lambda")
                     _scalar("charpath", cp[1], eff_ref, case, fails, "efficiency")
